@@ -233,18 +233,23 @@ def sparkAscii : List Nat := [95, 46, 45, 94]
 (`for rem >= 9 { full; rem -= 9 }; if rem > 0 { barUnicode[rem] }`) -/
 def barParts (rem : Int) : Int × Int := if rem < 0 then (0, rem) else (rem / barUnicodePartCount, rem % barUnicodePartCount)
 
-/-- `termunicode.BarWrite(w, val, maxLen)` -/
-def barWrite {α : Type} (A : Arith α) (env : Env) (u : α) (maxLen : Int) : Res Bytes :=
+/-- the glyphs (runes) `termunicode.BarWrite(w, val, maxLen)` writes -/
+def barWriteR {α : Type} (A : Arith α) (env : Env) (u : α) (maxLen : Int) : Res (List Nat) :=
   if env.unicode then do
     let rem := lengthVal A (wrap64 (maxLen * barUnicodePartCount)) u
     let (full, part) := barParts rem
-    let head := writeRepeat fullBlock full
+    let head := List.replicate full.toNat fullBlock
     if part > 0 then
       let g ← getIdx barUnicode part
-      pure (head ++ encodeRune g)
+      pure (head ++ [g])
     else pure head
   else
-    pure (writeRepeat nonUnicodeBlock (lengthVal A maxLen u))
+    pure (List.replicate (lengthVal A maxLen u).toNat nonUnicodeBlock)
+
+/-- `termunicode.BarWrite(w, val, maxLen)` -/
+def barWrite {α : Type} (A : Arith α) (env : Env) (u : α) (maxLen : Int) : Res Bytes := do
+  let rs ← barWriteR A env u maxLen
+  pure (rs.flatMap encodeRune)
 
 /-- number of runes `barWriteRunes` writes (after 7206d40: exact 128-bit product, no wrap) -/
 def barBlocks (val maxVal maxLen : Int) : Int :=
@@ -268,16 +273,19 @@ def barKey (env : Env) (idx : Int) : Res Bytes := do
     let g ← getIdx barAscii (idx % barAscii.length)
     pure (encodeRune g)
 
+/-- one segment of `BarWriteStacked`: value `v` at position `i` -/
+def stackedSegment (env : Env) (maxVal maxLen : Int) (v : Int) (i : Nat) : Res Bytes := do
+  let blockChar := if env.unicode then fullBlock else nonUnicodeBlock
+  if env.color then
+    let c ← getIdx groupColors ((i : Int) % groupColors.length)
+    pure (colorWrite env c (barWriteRunes blockChar v maxVal maxLen))
+  else
+    let g ← getIdx barAscii ((i : Int) % barAscii.length)
+    pure (barWriteRunes g v maxVal maxLen)
+
 /-- `termunicode.BarWriteStacked(w, maxVal, maxLen, vals...)` -/
 def barWriteStacked (env : Env) (maxVal maxLen : Int) (vals : List Int) : Res Bytes := do
-  let blockChar := if env.unicode then fullBlock else nonUnicodeBlock
-  let parts ← vals.zipIdx.mapM fun (v, i) => do
-    if env.color then
-      let c ← getIdx groupColors ((i : Int) % groupColors.length)
-      pure (colorWrite env c (barWriteRunes blockChar v maxVal maxLen))
-    else
-      let g ← getIdx barAscii ((i : Int) % barAscii.length)
-      pure (barWriteRunes g v maxVal maxLen)
+  let parts ← vals.zipIdx.mapM fun p => stackedSegment env maxVal maxLen p.1 p.2
   pure parts.flatten
 
 /-- `termunicode.HeatWrite(w, scaled)` -/
